@@ -11,8 +11,11 @@ Oracle (the property statement):
   * for every candidate c:  i2 = mn.dis(c, mode) succeeds       (cand-undecodable:<Type>)
       - i2.name == i.name                                       (cand-name)
       - i2.mode == i.mode                                       (cand-mode)
-      - i2.args == i.args   (== on expressions, as decoded)     (cand-args / cand-args:width-only / cand-argcount)
-      - i2.l == len(c)                                          (cand-length)
+      - i2.args == i.args   (== on expressions, as decoded)     (cand-args / cand-argcount;
+          same printed operands, only a width differs: *|cand-args:width-only(addrA->B | opA->B ...), one signature
+          per target and width class, mnemonics listed in `what`)
+      - i2.l == len(c)                                          (cand-length; with a memory operand:
+          *|cand-length(mem=<address skeleton>), one signature per target and addressing shape)
 Counted, not demanded: whether the original bytes are among the candidates (`original_among_candidates`).
 """
 import collections
@@ -39,18 +42,19 @@ ASSUMPTIONS = ["an instruction is 'decodable' when mn.dis returns without raisin
 _T = g.TARGETS
 _NAT = g.NATIVE
 BOUNDS = {
-    # quick: same shape as C14's quick tier (see there), plus SH4
+    # quick: same shape as C14's quick tier (see there) plus SH4; x86 (asm costs 2-5 ms per instruction) gets two
+    # prefixes per mode and no bit flips
     "quick": {
         "curated": _T,
-        "bitflip": ["x86_16", "ppc32b", "msp430", "sh4"],
+        "bitflip": ["ppc32b", "msp430", "sh4"],
         "bytesub": [],
         "cube": g.cube_dims({
-            "fixed32": {"lo": 1, "hi": 0, "stride": 32},
-            "thumb": {"ext": 1, "stride": 32},
-            "msp430": {"ext": 1, "stride": 32},
-            "word16": {"ext": 1, "stride": 32},
-            "sh4": {"ext": 1, "stride": 32},
-            "x86": {"prefix": 3, "maps": 2, "second": 1, "tail": 1},
+            "fixed32": {"lo": 1, "hi": 0, "stride": 64},
+            "thumb": {"ext": 1, "stride": 64},
+            "msp430": {"ext": 1, "stride": 64},
+            "word16": {"ext": 1, "stride": 64},
+            "sh4": {"ext": 1, "stride": 64},
+            "x86": {"prefix": 2, "maps": 2, "second": 1, "tail": 1},
         }, _NAT),
         "shard": 512, "bundles": 16,
     },
@@ -79,6 +83,32 @@ def _txt(i):
 def _widths(e):
     """size of the operand and, for a memory operand, of its address"""
     return "%d[%d]" % (e.size, e.ptr.size) if e.is_mem() else str(e.size)
+
+
+def _width_class(args, args2):
+    """What differs between two operand lists that print identically: addrA->B (address width of a memory operand),
+    memA->B (its access width), opA->B (width of a register / constant operand)."""
+    out = set()
+    for a, b in zip(args, args2):
+        if a == b:
+            continue
+        if a.is_mem() and b.is_mem():
+            if a.ptr.size != b.ptr.size:
+                out.add("addr%d->%d" % (a.ptr.size, b.ptr.size))
+            elif a.size != b.size:
+                out.add("mem%d->%d" % (a.size, b.size))
+            else:
+                out.add("inner")
+        elif a.size != b.size:
+            out.add("op%d->%d" % (a.size, b.size))
+        else:
+            out.add("inner")
+    return ",".join(sorted(out))
+
+
+# kinds whose cause does not depend on the mnemonic: one signature per (target, kind), the mnemonics go to `what`
+def _folded(kind):
+    return kind.startswith("cand-args:width-only(") or kind.startswith("cand-length(mem=")
 
 
 def judge(name, raw, first=None):
@@ -123,12 +153,15 @@ def judge(name, raw, first=None):
             elif list(i2.args) != list(instr.args):
                 s1, s2 = [str(a) for a in i2.args], [str(a) for a in instr.args]
                 if s1 == s2:        # same printed operands: only the width of a constant / address differs
-                    k = ("cand-args:width-only", "candidate %s decodes to %s: operand widths %s instead of %s" % (
+                    k = ("cand-args:width-only(%s)" % _width_class(instr.args, i2.args),
+                         "candidate %s decodes to %s: operand widths %s instead of %s" % (
                         c.hex(), _txt(i2), [_widths(a) for a in i2.args], [_widths(a) for a in instr.args]))
                 else:
                     k = ("cand-args", "candidate %s decodes to %s (args %s vs %s)" % (c.hex(), _txt(i2), s1, s2))
             elif i2.l != len(c):
-                k = ("cand-length", "candidate %s (%d bytes) decodes with length %r" % (c.hex(), len(c), i2.l))
+                mems = [g.skeleton(a.ptr) for a in instr.args if a.is_mem()]
+                k = ("cand-length(mem=%s)" % mems[0] if mems else "cand-length",
+                     "candidate %s (%d bytes) decodes with length %r" % (c.hex(), len(c), i2.l))
         if k is None:
             cnt["candidates_ok"] += 1
         elif k[0] not in seen:
@@ -143,9 +176,13 @@ def violations_of(name, raw, first=None):
     cnt, kinds, instr = judge(name, raw, first)
     vs = []
     for kind, detail in kinds:
-        sig = "%s|%s|%s" % (name, g.base_mnemonic(name, instr.name), kind)
-        vs.append(violation(sig, "%s %s (%s): %s" % (name, bytes(instr.b).hex(), _txt(instr), detail),
-                            {"target": name, "raw": raw}))
+        mnemo = g.base_mnemonic(name, instr.name)
+        sig = "%s|%s|%s" % (name, "*" if _folded(kind) else mnemo, kind)
+        v = violation(sig, "%s %s (%s): %s" % (name, bytes(instr.b).hex(), _txt(instr), detail),
+                      {"target": name, "raw": raw})
+        if _folded(kind):
+            v["mnemo"] = mnemo
+        vs.append(v)
     return cnt, vs
 
 
@@ -162,14 +199,7 @@ def _shard(shard):
         if sample is None and c.get("roundtrip_ok") and c.get("candidates", 0) > 1:
             sample = {"target": name, "bytes": bytes(instr.b).hex(), "text": _txt(instr), "candidates": c["candidates"]}
         for v in vs:
-            k = (len(instr.b), bytes(instr.b))
-            cur = best.get(v["sig"])
-            if cur is None:
-                best[v["sig"]] = [k, v, 1]
-            else:
-                cur[2] += 1
-                if k < cur[0]:
-                    cur[0], cur[1] = k, v
+            g.note_best(best, v, (len(instr.b), bytes(instr.b)))
     keys = stats.pop("_keys", [])
     return name, shard[1], stats, dict(counters), best, sample, keys
 
